@@ -111,10 +111,58 @@ TARGETS = [
 ]
 
 
+# expressions lifted out of async fns that cannot be executed as a whole (socket I/O, tokio::spawn): the initialiser of one
+# `let` binding, taken verbatim, becomes the body of a synchronous fn over the same variable names
+EXPR_TARGETS = [
+    dict(
+        name="udp_reply_bytes", file="crates/erbium-core/src/dns/mod.rs",
+        header=r"async\s+fn\s+run_udp\s*\([^{]*\{", binding="in_reply_bytes",
+        signature="pub fn lifted_udp_reply_bytes(in_reply: &dnspkt::DNSPkt, msg: &DnsMessage) -> Vec<u8>",
+        rewrites=[(r"\bSelf::", "DnsListenerHandler::")],
+    ),
+    dict(
+        name="tcp_reply_bytes", file="crates/erbium-core/src/dns/mod.rs",
+        header=r"async\s+fn\s+run_tcp\s*\([^{]*\{", binding="serialised",
+        signature="pub fn lifted_tcp_reply_bytes(in_reply: &dnspkt::DNSPkt, msg: &DnsMessage) -> Vec<u8>",
+        rewrites=[(r"\bSelf::", "DnsListenerHandler::")],
+    ),
+]
+
+
+def generate_exprs(status, notes):
+    for t in EXPR_TARGETS:
+        out = os.path.join(GEN_DIR, t["name"] + ".rs")
+        expr, line = None, None
+        try:
+            src = open(os.path.join(REPO, t["file"])).read()
+            body, line = find_fn_body(src, t["header"])
+            if body is not None:
+                ms = list(re.finditer(r"\blet\s+(?:mut\s+)?%s\s*(?::[^=;]+)?=\s*(.*?);" % re.escape(t["binding"]), body, flags=re.S))
+                if len(ms) == 1 and ".await" not in ms[0].group(1):
+                    expr = ms[0].group(1)
+        except Exception:  # noqa
+            expr = None
+        if expr is None:
+            status[t["name"]] = f"`let {t['binding']} = ..;` not found exactly once (or it awaits) in {t['header'][:30]}.. of {t['file']}"
+            with open(out, "w") as f:
+                f.write("// extraction failed\n#[allow(unused_variables)]\n%s {\n    panic!(\"lifting failed: binding not found in source\")\n}\n" % t["signature"])
+            continue
+        for pat, rep in t["rewrites"]:
+            expr = re.sub(pat, rep, expr, flags=re.S)
+        with open(out, "w") as f:
+            f.write("// GENERATED on every run by /verif/lib/lift.py: initialiser of `let %s` in %s (fn at line %d), verbatim except: %s\n" % (
+                t["binding"], t["file"], line, "; ".join(f"s/{p}/{r}/" for p, r in t["rewrites"])))
+            f.write("#[allow(unused_variables, unused_mut, clippy::all)]\n")
+            f.write(t["signature"] + " {\n    " + expr + "\n}\n")
+        status[t["name"]] = None
+        notes.append(f"lifted the initialiser of `let {t['binding']}` from {t['file']} fn at line {line}")
+
+
 def generate():
     """Write one file per target into GEN_DIR. Returns {name: error or None} and the list of evidence notes."""
     os.makedirs(GEN_DIR, exist_ok=True)
     status, notes = {}, []
+    generate_exprs(status, notes)
     for t in TARGETS:
         out = os.path.join(GEN_DIR, t["name"] + ".rs")
         try:
